@@ -25,6 +25,7 @@ import (
 	"github.com/btcsuite/btcd/btcutil/v2"
 	"github.com/btcsuite/btcd/wire/v2"
 	"github.com/lightningnetwork/lnd/chainntnfs"
+	"github.com/lightningnetwork/lnd/channeldb"
 	"github.com/lightningnetwork/lnd/fn/v2"
 	"github.com/lightningnetwork/lnd/input"
 	"github.com/lightningnetwork/lnd/internal/verif/chansim"
@@ -50,6 +51,9 @@ type c04Revoked struct {
 	// second-level txs the cheater could confirm, by commitment output
 	second map[uint32]*wire.MsgTx
 	exp    *chansim.Expected
+	// legacy: the victim's revocation log entry of this height is stored
+	// in the pre-v0.15 format (deprecated bucket, full commitment).
+	legacy bool
 }
 
 type c04Stats struct {
@@ -91,7 +95,7 @@ func c04Check(s *chansim.Sim, r *c04Revoked, st *c04Stats) error {
 		state, r.height, 1000, nil, leaf, noRes,
 	)
 	switch {
-	case s.P.NoAmtData:
+	case s.P.NoAmtData && !r.legacy:
 		if !errors.Is(err, lnwallet.ErrRevLogDataMissing) {
 			return fmt.Errorf("%s: no amount data stored and no breach "+
 				"tx: want ErrRevLogDataMissing, got %v", name, err)
@@ -376,7 +380,43 @@ func TestVerifC04Breach(t *testing.T) {
 		s := chansim.New(t, p)
 		defer s.Close()
 
+		// Legacy revocation log (added after seeded change C04f): on a
+		// quarter of the channels of a type that existed before v0.15
+		// the revocation log entries written so far are, at one
+		// generated point, rewritten in the pre-v0.15 format
+		// (deprecated bucket, complete commitment) - a node upgraded
+		// without the optional migration. States revoked later go to
+		// the current bucket, so both layouts coexist.
+		legacyMode := rapid.IntRange(0, 3).Draw(t, "legacyRevocationLog") == 0 &&
+			!p.ChanType.IsTaproot()
+		legacyDone := false
+		legacyEntries, mixedAfter := 0, 0
+		var commits [2]map[uint64]*channeldb.ChannelCommitment
+		commits[0] = map[uint64]*channeldb.ChannelCommitment{}
+		commits[1] = map[uint64]*channeldb.ChannelCommitment{}
+
 		var revs []*c04Revoked
+		downgrade := func(s *chansim.Sim) error {
+			legacyDone = true
+			for x := 0; x < 2; x++ {
+				state, err := s.Sides[x].FetchState()
+				if err != nil {
+					return fmt.Errorf("harness: fetch: %v", err)
+				}
+				n, err := channeldb.VerifDowngradeRevocationLog(
+					s.Sides[x].DB.ChannelStateDB(), state, commits[x],
+				)
+				if err != nil {
+					return fmt.Errorf("harness: downgrade of %s's "+
+						"revocation log: %v", s.Sides[x].Name, err)
+				}
+				legacyEntries += n
+			}
+			for _, r := range revs {
+				r.legacy = true
+			}
+			return nil
+		}
 		pendingSecond := map[[2]uint64]map[uint32]*wire.MsgTx{}
 		var hookErr error
 		s.OnBeforeRevoke = func(y int, h uint64) {
@@ -399,6 +439,18 @@ func TestVerifC04Breach(t *testing.T) {
 				cov[1-rec.Signer] = rec.Their
 				e = s.Expect(y, h, cov)
 			}
+			if legacyMode {
+				// x is about to receive the revocation of the
+				// remote commitment it holds: what a pre-v0.15
+				// node wrote to its log.
+				c := s.Sides[x].Chan.State().RemoteCommitment
+				c.CommitTx = c.CommitTx.Copy()
+				c.Htlcs = append([]channeldb.HTLC(nil), c.Htlcs...)
+				commits[x][h] = &c
+			}
+			if legacyDone {
+				mixedAfter++
+			}
 			revs = append(revs, &c04Revoked{
 				victim: x, height: h, tx: tx,
 				second: pendingSecond[[2]uint64{uint64(y), h}],
@@ -413,6 +465,16 @@ func TestVerifC04Breach(t *testing.T) {
 			AfterStep: func(*chansim.Sim, string) error { return hookErr },
 			AfterCut: func(s *chansim.Sim, _ *chansim.RetransmitReport) error {
 				reloads++
+				if legacyMode && !legacyDone && len(revs) > 0 &&
+					rapid.IntRange(0, 2).Draw(t, "downgradeNow") == 0 {
+
+					if err := downgrade(s); err != nil {
+						return err
+					}
+					// every state checked before must still be
+					// punishable from the rewritten log
+					checked = 0
+				}
 				// after a reload every state revoked so far must
 				// still be punishable
 				for ; checked < len(revs); checked++ {
@@ -423,6 +485,11 @@ func TestVerifC04Breach(t *testing.T) {
 				return nil
 			},
 		})
+		if err == nil && legacyMode && !legacyDone && len(revs) > 0 &&
+			rapid.Bool().Draw(t, "downgradeAtEnd") {
+
+			err = downgrade(s)
+		}
 		if err == nil {
 			for _, r := range revs {
 				if err = c04Check(s, r, &stats); err != nil {
@@ -486,6 +553,13 @@ func TestVerifC04Breach(t *testing.T) {
 		}
 		if both {
 			labels = append(labels, "revoked_with_htlcs_both_directions")
+		}
+		if legacyEntries > 0 {
+			labels = append(labels, "legacy_revocation_log")
+			if mixedAfter > 0 {
+				labels = append(labels, "legacy_and_current_log_mixed")
+			}
+			st.Count("legacy_log_entries", int64(legacyEntries))
 		}
 		if stats.secondLevel > 0 {
 			labels = append(labels, "second_level_punished")
